@@ -107,7 +107,8 @@ func (self *Node) MarshalJSON() ([]byte, error) {
 		}
 	}
 	if self.isRaw() {
-		return rt.Str2Mem(self.toString()), nil
+		// NOTICE: the result belongs to the caller, it must not alias the node's own text
+		return []byte(self.toString()), nil
 	}
 
 	buf := newBuffer()
